@@ -56,6 +56,48 @@ class FS:
         return sorted(names)
 
 
+def np_array2string(vals, precision=8, separator=' '):
+    """numpy's rendering of a one-dimensional float64 array (arrayprint.FloatingFormat, floatmode 'maxprec', suppress_small off): shortest round-tripping digits, but never more
+    than `precision` fractional digits; exponent form for the whole array when max >= 1e8, min < 1e-4 or max / min > 1000.  What a reader parses back is therefore the value
+    rounded to `precision` digits -- the point of modelling it."""
+    import math
+    from decimal import Decimal
+    fl = [float(v) for v in vals]
+    if not fl:
+        return '[]'
+    nz = [abs(x) for x in fl if x != 0 and math.isfinite(x)]
+    expo = bool(nz) and (max(nz) >= 1e8 or min(nz) < 1e-4 or max(nz) / min(nz) > 1000.)
+    if expo:
+        rows = []
+        for x in fl:
+            sgn = '-' if x < 0 or (x == 0 and math.copysign(1, x) < 0) else ''
+            t = Decimal(repr(abs(x))).as_tuple()
+            digs = ''.join(map(str, t.digits)).rstrip('0') or '0'
+            if len(digs) - 1 > precision:
+                m_, _, e_ = format(abs(x), f'.{precision}e').partition('e')
+                frac = m_.split('.')[1].rstrip('0'); ip = m_.split('.')[0]; ex = int(e_)
+            else:
+                ip, frac = digs[0], digs[1:]
+                ex = (len(t.digits) - 1 + t.exponent) if x != 0 else 0
+            rows.append((sgn + ip, frac, ex))
+        prec = max(len(r[1]) for r in rows); esz = max(2, max(len(str(abs(r[2]))) for r in rows)); lp = max(len(r[0]) for r in rows)
+        strs = [f'{r[0].rjust(lp)}.{r[1].ljust(prec, "0")}e{"-" if r[2] < 0 else "+"}{str(abs(r[2])).rjust(esz, "0")}' for r in rows]
+    else:
+        rows = []
+        for x in fl:
+            sgn = '-' if x < 0 else ''
+            txt = format(Decimal(repr(abs(x))), 'f')
+            ip, _, frac = txt.partition('.')
+            frac = frac.rstrip('0')
+            if len(frac) > precision:
+                ip, _, frac = format(abs(x), f'.{precision}f').partition('.')
+                frac = frac.rstrip('0')
+            rows.append((sgn + ip, frac))
+        lp = max(len(r[0]) for r in rows); rp = max(len(r[1]) for r in rows)
+        strs = [f'{r[0].rjust(lp)}.{r[1].ljust(rp)}' for r in rows]
+    return '[' + separator.join(strs) + ']'
+
+
 def norm(path):
     return str(path).replace('//', '/')
 
@@ -387,6 +429,19 @@ class Machine:
                 return len(args[0])
             if base in ('asarray', 'array') and args and isinstance(args[0], Obj) and 'flat' in args[0].attrs:
                 return args[0]
+            if base in ('array2string', 'array_str', 'array_repr') and args:
+                a_ = args[0]
+                a_ = a_.attrs['flat'] if isinstance(a_, Obj) and 'flat' in a_.attrs else a_
+                if isinstance(a_, (list, tuple, Vec)):
+                    vals_ = []
+                    for v_ in a_:
+                        c_ = I.concrete(v_) if isinstance(v_, X.Node) else v_
+                        if c_ is None or isinstance(c_, (str, bool)):
+                            raise AnalysisError(f'{base} of a non-numeric / symbolic element')
+                        vals_.append(Fraction(c_))
+                    prec_ = kwargs.get('precision', 8)
+                    txt_ = np_array2string(vals_, precision=8 if prec_ is None else int(prec_), separator=kwargs.get('separator', ' '))
+                    return ('array(' + txt_ + ')') if base == 'array_repr' else txt_
             if base in ('print', 'warn'):
                 return None
             # the standard library's regular expressions, by their real implementation (text in, text out)
@@ -558,6 +613,8 @@ def explore(chk, repo, thorough=False):
         Scenario('2 x 2 grid, one case raising (avoid_crashes)', [('x', 'X', 0, 1, 'linear', (), 2), ('y', 'Y', 0, 1, 'linear', [], 2)], fail=((Fraction(0), Fraction(1)),)),
         Scenario('one input, 3 values', [('x', 'X', 0, 2, 'linear', [], 3)]),
         Scenario('negative and fractional inputs', [('x', 'X', Fraction(-1, 2), Fraction(3, 2), 'linear', [Fraction(-1, 4)], 3), ('y', 'Y', Fraction(1, 4), Fraction(3, 4), 'linear', (), 2)], pathos=False),
+        Scenario('must-include values with more digits than a default array print keeps', [('x', 'X', 0, 1, 'linear', [Fraction('0.0094123456789')], 2), ('y', 'Y', 1, 2, 'linear', (Fraction('1.5000000001'),), 2)],
+                 fail=((Fraction(0), Fraction(1)),)),
         Scenario('must-include values the journal prints in exponent form', [('x', 'X', 0, 1, 'linear', (Fraction(1, 20000),), 2), ('y', 'Y', 0, 10 ** 21, 'linear', [Fraction(25 * 10 ** 19)], 2)]),
     ]
     n_kill = 0
@@ -603,8 +660,13 @@ def explore(chk, repo, thorough=False):
                     marker_names.add(p[len(d_) + 1:])
         # a file is a marker if removing it from the final state makes the restart execute that case
         real_markers = set()
+        o_full, m_full, err_full = restart_from(repo, sc, final)
         for mn in sorted(marker_names):
-            tag0 = tags_in_order[0]
+            # judged on a case that owns such a file and that a restart from the complete final state leaves alone (a case that raised owns no marker: it is re-run either way)
+            owners = [t_ for t_ in tags_in_order if dirs.get(t_) and (dirs[t_] + '/' + mn) in final[1] and (err_full is not None or case_args[t_] not in m_full.executed)]
+            if not owners:
+                continue
+            tag0 = owners[0]
             snap = (final[0], {k: v for k, v in final[1].items() if k != dirs[tag0] + '/' + mn})
             o2, m2, err = restart_from(repo, sc, snap)
             if err is None and case_args[tag0] in m2.executed:
